@@ -44,6 +44,12 @@ def macro_families():
         [(1, ['a', 'b'], ['x']), (1, ['b', 'c'], ['y']), (2, ['c'], ['z'])],                  # overlapping candidates, priorities
         [(1, ['<INT>', '<INT>'], ['$1', '$0']), (1, ['1', '<INT>'], ['one'])],                  # literal INT constraint
         [(1, ['foo', '<V>', 'bar'], ['$0'])],
+        # equal priority, later definition starts further right but is longer, overlapping
+        [(1, ['a', 'b'], ['x']), (1, ['b', 'c', 'c'], ['y'])],
+        [(2, ['<V>', '-', '<V>'], ['sub', '(', '$0', ',', '$1', ')']), (2, ['<V>', '+', '<V>'], ['add', '(', '$0', ',', '$1', ')'])],
+        [(1, ['c'], ['z']), (1, ['b', 'c'], ['y']), (1, ['a', 'b', 'c'], ['x'])],            # same end, different starts
+        [(1, ['a', '<ID>'], ['p']), (1, ['<ID>', 'b', '<ID>'], ['q'])],
+        [(3, ['a'], ['b']), (2, ['b'], ['c']), (1, ['c'], ['d'])],                             # chains through priorities
     ]
 
 
@@ -63,6 +69,13 @@ def check_C09(ctx):
     for fam in macro_families():
         for _ in range(ctx.n(40, 400)):
             cases.append(build_case(r, fam, r.randint(1, 7)))
+        # exhaustive short streams over the family's own literals (plus one filler)
+        lits = sorted({t for (_, pat, _) in fam for t in pat if t not in front.SLOTS} | {'k'})[:5]
+        if len(lits) <= 4:
+            for ln in range(1, ctx.n(4, 5) + 1):
+                for st in itertools.product(lits, repeat=ln):
+                    src = '\n'.join('DEFINE PRIO %d %s AS %s END DEFINE' % (pr, ' '.join(pat), ' '.join(body)) for (pr, pat, body) in fam) + '\n' + ' '.join(st)
+                    cases.append((fam, list(st), src))
     for _ in range(ctx.n(300, 3000)):
         macros, stream, src = front.macro_case(r)
         cases.append((macros, stream, src))
